@@ -172,6 +172,59 @@ def native_cells_from_files():
                                                            "accepted" if (i is not None and got[i]) else "rejected",
                                                            "accepts" if (i is not None and direct[i]) else "rejects"),
                                          args=dict(allowed=allowed, how=how)))
+        # spreadsheets: cells with runs of blanks, tabs and line breaks (ODS stores them as elements), number cells
+        # holding 0 and FALSE (xlsx): the guards see the whole cell / the rendered number, never an empty cell
+        import xlsxwriter
+        from props.c15 import encode_document, write_ods
+        sheet_cells = ["ok", "De  la Fontaine-Beaumont", "call\tM\u00fcller", "a  b", " lead", "x\ny long line", "ab", "toolong value 123"]
+        for allowed in ("", "32...126, tab, lf"):
+            for fmt in ("ods", "excel"):
+                n += 1
+                text = "d,format,%s\n" % fmt + ("d,allowed characters,\"%s\"\n" % allowed if allowed else "") + "f,k,,,1\nf,v,,,2...12\n"
+                cid = interface.create_cid_from_string(text)
+                path = os.path.join(d, "cells." + ("ods" if fmt == "ods" else "xlsx"))
+                rows = [["k", c] for c in sheet_cells]
+                if fmt == "ods":
+                    write_ods(path, encode_document([("s", rows)], ws_elements=True))
+                else:
+                    wb = xlsxwriter.Workbook(path)
+                    ws = wb.add_worksheet()
+                    for y, row in enumerate(rows):
+                        for x, c in enumerate(row):
+                            ws.write_string(y, x, c)
+                    wb.close()
+                direct = []
+                for c in sheet_cells:
+                    try:
+                        cid.field_formats[1].validated(c)
+                        direct.append(True)
+                    except errors.FieldValueError:
+                        direct.append(False)
+                try:
+                    got = [not isinstance(r, errors.DataError) for r in validio.rows(interface.create_cid_from_string(text), path, on_error="yield")]
+                except Exception as e:  # noqa
+                    got = "%s: %s" % (type(e).__name__, e)
+                if got != direct:
+                    failures.append(dict(key="field-guards-stored-cells", what="format %s, allowed characters %r: cells %r accepted as %r, the field itself "
+                                         "says %r" % (fmt, allowed, sheet_cells, got, direct), args=dict(fmt=fmt, allowed=allowed)))
+        n += 1
+        path = os.path.join(d, "zero.xlsx")
+        wb = xlsxwriter.Workbook(path)
+        ws = wb.add_worksheet()
+        ws.write_number(0, 0, 0)
+        ws.write_number(0, 1, 0)
+        ws.write_boolean(1, 0, False)
+        ws.write_number(1, 1, 3)
+        ws.write_number(2, 0, 7)
+        wb.close()
+        cid = interface.create_cid_from_string("d,format,excel\nf,must,,,,Integer,0...9\nf,may,,X,,Integer,1...5\n")
+        try:
+            got = [("error", r.location.cell) if isinstance(r, errors.DataError) else r for r in validio.rows(cid, path, on_error="yield")]
+        except Exception as e:  # noqa
+            got = "%s: %s" % (type(e).__name__, e)
+        if got != [("error", 1), ["0", "3"], ["7", ""]]:
+            failures.append(dict(key="field-guards-stored-cells", what="xlsx number cells 0 / FALSE / an absent cell under (Integer 0...9, optional Integer "
+                                 "1...5): %r, expected the 0 in the optional field to be rejected by its rule and the absent cell to be empty" % (got,), args={}))
     finally:
         shutil.rmtree(d, ignore_errors=True)
     return dict(count=n, failures=failures, samples=[])
